@@ -109,6 +109,16 @@ def _under(l, v):
             return sp.true
         if c is False:
             return sp.false
+    if isinstance(v, sp.Piecewise):
+        # a conditional value (`x if found else nan`): the piece whose condition the path assumes
+        for val, cond in v.args:
+            if cond in (sp.true, True):
+                return val
+            c = _case(l, cond)
+            if c is True:
+                return val
+            if c is None:
+                return v
     return v
 
 
